@@ -29,7 +29,10 @@ RULE = ("scenarios: <=3 entities x <=2 attributes, some existing before the trig
         "and or not, over values, attributes, .old); histories of <=12 create / change value / change attribute / "
         "re-set same / delete operations in bursts of 1-6; each scenario under both subsystems; plus runs delayed by "
         "state_hold in {0, 0.5, 2 s} with kwargs= of plain names and of names colliding with var_name / value / "
-        "old_value / trigger_type (the keyword arguments of the delayed run are judged).  Non-trivial = at "
+        "old_value / trigger_type (the keyword arguments of the delayed run are judged), alone or next to a PLAIN trigger "
+        "on the same entity (stacked before / after it, or on a second function: every run's full kwargs per function); "
+        "multi-life histories (all trigger functions removed and loaded again, changes in the gap, then a burst over both "
+        "variables of the expression); kwargs=None spelled out.  Non-trivial = at "
         "least one event delivered to some decorator; distinct by payload.")
 ASSUMPTIONS = [
     "Home Assistant delivers state_changed to pyscript's listener synchronously, in firing order, and fires no event "
@@ -303,9 +306,60 @@ def race_scenario(rng):
     return {"ents": ents, "pre": pre, "funcs": funcs, "hist": hist, "family": "race"}
 
 
+def relife_scenario(rng):
+    """family aimed at the snapshot of unchanged variables surviving a period WITHOUT subscribers: a trigger over two
+    entities, both notified while it is watching (life 1); every subscriber goes away (script removed + reload), the
+    entities may change in the gap, the script comes back (life 2) and the first burst changes both entities - the
+    first change must be evaluated with the other entity's value AT that event (State.notify keeps the empty entry of an
+    entity once watched, so State.update keeps recording its value in notify_var_last)"""
+    ents = ENTS[:rng.choice([2, 3])]
+    a, b = rng.sample(ents, 2)
+    cur = {}
+    hist = []
+
+    def chg(e):
+        v = rng.choice([x for x in STATES if x != cur.get(e)])
+        cur[e] = v
+        return ["set", e, v, {}]
+    pre = {}
+    if rng.random() < 0.3:
+        pre[b] = [rng.choice(STATES), {}]
+        cur[b] = pre[b][0]
+    # life 1: both entities notified, settled one at a time (sometimes a control burst as well)
+    first = [chg(a), chg(b)]
+    rng.shuffle(first)
+    hist += [[first[0]], [first[1]]]
+    if rng.random() < 0.4:
+        hist.append([chg(a), chg(b)])
+    hist.append([["unload"]])
+    for _ in range(rng.choice([0, 0, 1, 2])):           # the gap: nobody is subscribed, the entry stays
+        hist.append([chg(rng.choice([a, b]))])
+    hist.append([["load"]])
+    vb_before = cur[b]
+    opa, opb = chg(a), chg(b)
+    va, vb = opa[2], opb[2]
+    atom_b = rng.choice([["eq", [b], vb_before], ["ne", [b], vb], ["eq", [b], vb], ["ne", [b], vb_before]])
+    ex = [rng.choice(["and", "or"]), ["eq", [a], va], atom_b]
+    burst = [opa, opb]
+    for _ in range(rng.choice([0, 0, 1, 2])):
+        burst.append(chg(rng.choice([a, b])))
+    hist.append(burst)
+    for _ in range(rng.randrange(0, 3)):
+        hist.append([chg(rng.choice([a, b]))])
+    dec = {"args": [{"k": "expr", "ex": ex}], "watch": None, "kwargs": None, "form": "expr"}
+    return {"ents": ents, "pre": pre, "funcs": [{"decs": [dec]}], "hist": hist, "family": "relife"}
+
+
+def is_life_op(op):
+    return op[0] in ("unload", "load")
+
+
 def rnd_scenario(rng, tier):
-    if rng.random() < 0.12:
+    r = rng.random()
+    if r < 0.12:
         return race_scenario(rng)
+    if r < 0.2:
+        return relife_scenario(rng)
     nent = rng.choice([1, 2, 2, 3])
     ents = ENTS[:nent]
     pre = {}
@@ -375,6 +429,17 @@ WITNESSES = [
      "funcs": [{"decs": [_dec([{"k": "expr", "ex": ["and", ["ne", ["pyscript.x"], "7"], ["ne", ["pyscript.z"], "2"]]}],
                               watch=["pyscript.x"])]}],
      "hist": [[["set", "pyscript.x", "1", {}]]]},
+    # C04_resubscribed: y notified in life 1, all subscribers gone and back, burst x := 1; y := 5 - the run for x := 1
+    # (y was still '0') must happen: notify_var_last survives the period without subscribers
+    {"ents": ["pyscript.x", "pyscript.y"], "pre": {}, "family": "relife",
+     "funcs": [{"decs": [_dec([{"k": "expr", "ex": ["and", ["eq", ["pyscript.x"], "1"], ["eq", ["pyscript.y"], "0"]]}])]}],
+     "hist": [[["set", "pyscript.x", "0", {}]], [["set", "pyscript.y", "0", {}]], [["unload"]], [["load"]],
+              [["set", "pyscript.x", "1", {}], ["set", "pyscript.y", "5", {}]]]},
+    {"ents": ["pyscript.x", "pyscript.y"], "pre": {}, "family": "relife",
+     "funcs": [{"decs": [_dec([{"k": "expr", "ex": ["and", ["eq", ["pyscript.x"], "1"], ["eq", ["pyscript.y"], "7"]]}])]}],
+     "hist": [[["set", "pyscript.x", "0", {}]], [["set", "pyscript.y", "0", {}]], [["unload"]],
+              [["set", "pyscript.y", "7", {}]], [["load"]],
+              [["set", "pyscript.x", "1", {}], ["set", "pyscript.y", "5", {}]]]},
     # C04_cex_multi_burst_order: stacked decorators, burst x := 1; x := 2
     {"ents": ["pyscript.x"], "pre": {},
      "funcs": [{"decs": [_dec([{"k": "expr", "ex": ["eq", ["pyscript.x"], "2"]}], kwargs={"dec": "1"}),
@@ -421,36 +486,62 @@ def held_events(p):
     return evs
 
 
+HELD_SHAPES = ["single", "hold_first", "hold_last", "two"]
+
+
 def held_src(p):
-    return (f"@state_trigger(\"pyscript.x == '1'\", state_hold={p['hold']!r}, kwargs={p['kwargs']!r})\n"
-            "def f0(**kw):\n"
-            "    rec('run', 0, kw)\n")
+    """the held decorator alone, or together with a PLAIN state trigger on the same entity that fires on the same events:
+    stacked on the same function (held decorator first / last) or on a second function - every subscriber of an event must
+    get its own arguments (State.update hands each queue its own copy of func_args)"""
+    held = f"@state_trigger(\"pyscript.x == '1'\", state_hold={p['hold']!r}, kwargs={p['kwargs']!r})\n"
+    plain = "@state_trigger(\"pyscript.x == '1'\")\n"
+    shape = p.get("shape", "single")
+    body = "def f0(**kw):\n    rec('run', 0, kw)\n"
+    if shape == "single":
+        return held + body
+    if shape == "hold_first":
+        return held + plain + body
+    if shape == "hold_last":
+        return plain + held + body
+    return held + body + "\n" + plain + "def f1(**kw):\n    rec('run', 1, kw)\n"
 
 
 def make_held_case(p):
     p = {k: v for k, v in p.items() if not k.startswith("_")}
+    shape = p.get("shape", "single")
     line = "C04 " + sx(["held", "legacy" if p["legacy"] else "new", [[k, str(v)] for k, v in p["kwargs"].items()],
-                        [["pyscript.x", sval_sx(new), sval_sx(old), ctx] for ctx, new, old in held_events(p)]])
-    tags = ["legacy" if p["legacy"] else "new", "held", f"held:hold={p['hold']}"]
+                        [["pyscript.x", sval_sx(new), sval_sx(old), ctx] for ctx, new, old in held_events(p)],
+                        shape != "single"])
+    tags = ["legacy" if p["legacy"] else "new", "held", f"held:hold={p['hold']}", f"held:shape={shape}"]
     if any(k in ("var_name", "value", "old_value", "trigger_type") for k in p["kwargs"]):
         tags.append("held:kwargs-override")
     return Case(p, line, tags=tags)
 
 
+def held_plain_func(p):
+    return 1 if p.get("shape", "single") == "two" else 0
+
+
 def held_oracle(p):
+    """the delayed runs of the held decorator (event arguments overridden by ITS kwargs) and - when there is a plain trigger
+    on the same entity - that trigger's immediate runs with the bare event arguments; entries [function, ctx, kwargs…]"""
     runs = []
     for ctx, new, old in held_events(p):
-        base = [["trigger_type", "state"], ["var_name", "pyscript.x"], ["value", o_show(SV(new[0], new[1]))],
-                ["old_value", "None" if old is None else o_show(SV(old[0], old[1]))]]
+        def base():
+            return [["trigger_type", "state"], ["var_name", "pyscript.x"], ["value", o_show(SV(new[0], new[1]))],
+                    ["old_value", "None" if old is None else o_show(SV(old[0], old[1]))]]
+        b1 = base()
         for k, val in p["kwargs"].items():
-            for b in base:
+            for b in b1:
                 if b[0] == k:
                     b[1] = str(val)
                     break
             else:
-                base.append([k, str(val)])
-        runs.append([ctx] + base)
-    return {"runs": runs}
+                b1.append([k, str(val)])
+        runs.append([0, ctx] + b1)
+        if p.get("shape", "single") != "single":
+            runs.append([held_plain_func(p), ctx] + base())
+    return {"runs": sorted(runs, key=json.dumps)}
 
 
 def run_held(p):
@@ -466,7 +557,7 @@ def run_held(p):
             env.hass.states.async_set("pyscript.x", v, dict(attrs), context=Context(id=f"c{i + 1}"))
             await env.settle(0)
         await env.settle_until(t0 + 1 + 5 * len(p["vals"]) + 5)
-        return [canon_kw(r[3]) for r in env.records if r[1] == "run"]
+        return sorted([[r[2]] + canon_kw(r[3]) for r in env.records if r[1] == "run"], key=json.dumps)
 
     try:
         return {"runs": run_ha({}, p["legacy"], body)}
@@ -523,7 +614,7 @@ def run_kwnone(p):
 
 
 def gen_cases(rng, tier, search):
-    n = 220 if tier == "quick" else 2500
+    n = 200 if tier == "quick" else 2500
     if search:
         n = 900 if tier == "quick" else 5000
     cases = []
@@ -537,8 +628,12 @@ def gen_cases(rng, tier, search):
     for hold in HELD_HOLDS:
         for kw in HELD_KWARGS:
             vals = held_values(rng)
-            for legacy in (True, False):
-                cases.append(make_held_case({"kind": "held", "legacy": legacy, "hold": hold, "kwargs": kw, "vals": vals}))
+            # alone, or next to a plain trigger on the same entity (stacked before / after it, or on a second function)
+            shapes = ["single", rng.choice(HELD_SHAPES[1:])] if tier == "quick" and not search else HELD_SHAPES
+            for shape in shapes:
+                for legacy in (True, False):
+                    cases.append(make_held_case({"kind": "held", "legacy": legacy, "hold": hold, "kwargs": kw, "vals": vals,
+                                                 "shape": shape}))
     for _ in range(n):
         scn = rnd_scenario(rng, tier)
         for legacy in (True, False):
@@ -608,15 +703,23 @@ def schedule(scn):
     steps = []
     ctx = 0
     cur = {e: [v[0], dict(v[1])] for e, v in scn["pre"].items()}
+    alive = True
     for burst in scn["hist"]:
         wake, cnt = [], {}
         for op in burst:
+            if is_life_op(op):
+                # all trigger functions go away / come back (fresh queues); State.notify keeps its (empty) entries
+                steps.append([op[0]])
+                alive = op[0] == "load"
+                continue
             ctx += 1
             steps.append(["op", op[1], sval_sx([op[2], op[3]] if op[0] == "set" else None), ctx])
             new = [op[2], dict(op[3])] if op[0] == "set" else None
             if cur.get(op[1]) == new:
                 continue            # no state_changed event: nothing is put, nobody is woken
             cur[op[1]] = new
+            if not alive:
+                continue
             for di, s in enumerate(subs):
                 if op[1] in s:
                     if di not in wake:
@@ -633,6 +736,10 @@ def make_case(scn, legacy):
                         [[e, sval_sx(v)] for e, v in sorted(scn["pre"].items())], schedule(scn)])
     tags = ["legacy" if legacy else "new"]
     tags.append("burst" if any(len(b) > 1 for b in scn["hist"]) else "settled")
+    if scn.get("family"):
+        tags.append("family:" + scn["family"])
+    if any(is_life_op(op) for b in scn["hist"] for op in b):
+        tags.append("resubscribed")
     if scn["pre"]:
         tags.append("pre-existing")
     for _, d in decs:
@@ -680,6 +787,8 @@ def boundary_tags(scn):
         if len(burst) >= 3:
             t.add("bv:burst-3rd-or-later-change")
         for op in burst:
+            if is_life_op(op):
+                continue
             if op[0] == "set":
                 if op[2] in SPECIAL_STATES:
                     t.add("bv:special-state-value")
@@ -756,6 +865,17 @@ def run_one(payload):
             ctx = 0
             for burst in scn["hist"]:
                 for op in burst:
+                    if op[0] == "unload":             # every trigger function goes away …
+                        await env.settle(0.01)
+                        env.remove("t.py")
+                        await env.reload()
+                        await env.settle(0.01)
+                        continue
+                    if op[0] == "load":               # … and comes back
+                        env.write("t.py", src)
+                        await env.reload()
+                        await env.settle(0.01)
+                        continue
                     ctx += 1
                     if op[0] == "set":
                         env.hass.states.async_set(op[1], op[2], dict(op[3]), context=Context(id=f"c{ctx}"))
@@ -935,8 +1055,13 @@ def oracle(scn):
     evals = [0] * nf
     delivered = [0] * len(decs)
     ctx = 0
+    alive, loads = True, 1
     for burst in scn["hist"]:
         for op in burst:
+            if is_life_op(op):
+                alive = op[0] == "load"
+                loads += 1 if alive else 0
+                continue
             ctx += 1
             old = store.get(op[1])
             new = SV(op[2], op[3]) if op[0] == "set" else None
@@ -948,6 +1073,8 @@ def oracle(scn):
                 store.pop(op[1], None)
             else:
                 store[op[1]] = new
+            if not alive:
+                continue                # nobody is subscribed: the change is seen by no trigger
             ev = {"e": op[1], "new": new, "old": old}
             for di, (fi, d) in enumerate(decs):
                 names = dec_names(d)
@@ -973,7 +1100,7 @@ def oracle(scn):
                         else:
                             base.append([k, str(val)])
                     runs[fi].append([ctx] + base)
-    watching = sorted(sorted({dotted(n) for n in dec_ident(d)}) for fi, d in decs)
+    watching = sorted(sorted({dotted(n) for n in dec_ident(d)}) for fi, d in decs for _ in range(loads))
     return {"runs": runs, "evals": evals, "delivered": delivered, "watching": watching}
 
 
@@ -996,7 +1123,9 @@ def split(outline):
         return json.dumps({"held": True, "kw": True, "m": m, "s": sp}), json.dumps({"spec": sp, "diag": []})
     if model and model[0] == "held":
         def hruns(x):
-            return [[int(r[0])] + [[kv[0], kv[1]] for kv in r[1:]] for r in x[1:]]
+            # x = ["held", [delayed runs of the held decorator], [immediate runs of the plain trigger]]
+            return {"held": [[int(r[0])] + [[kv[0], kv[1]] for kv in r[1:]] for r in x[1]],
+                    "plain": [[int(r[0])] + [[kv[0], kv[1]] for kv in r[1:]] for r in x[2]]}
         return (json.dumps({"held": True, "m": hruns(model), "s": hruns(spec)}),
                 json.dumps({"spec": {"runs": hruns(spec)}, "diag": []}))
     m = {"runs": _runs(model[1]), "evals": [int(v) for v in model[3]], "pending": [int(v) for v in model[5] if int(v)]}
@@ -1018,7 +1147,11 @@ def _finish_model(c):
         c.model = json.dumps({"obs": ms["m"], "oracle": ms["s"]}, sort_keys=True)
         return
     if ms.get("held"):
-        c.model = json.dumps({"obs": {"runs": ms["m"]}, "oracle": {"runs": ms["s"]}}, sort_keys=True)
+        pf = held_plain_func(c.payload)
+
+        def flat(x):
+            return sorted([[0] + r for r in x["held"]] + [[pf] + r for r in x["plain"]], key=json.dumps)
+        c.model = json.dumps({"obs": {"runs": flat(ms["m"])}, "oracle": {"runs": flat(ms["s"])}}, sort_keys=True)
         return
     scn = c.payload["scn"]
     decs = decs_of(scn)
@@ -1217,7 +1350,7 @@ def extra_coverage(cases):
     n_runs = sum(len(f) - 1 for c in cases for f in c.payload.get("_oracle", {}).get("runs", []))
     n_evals = sum(sum(c.payload.get("_oracle", {}).get("evals", [])) for c in cases)
     n_deliv = sum(sum(c.payload.get("_oracle", {}).get("delivered", [])) for c in cases)
-    n_ops = sum(len(b) for c in cases for b in c.payload["scn"]["hist"])
+    n_ops = sum(1 for c in cases for b in c.payload["scn"]["hist"] for op in b if not is_life_op(op))
     return {"held_kwargs_cases": len(held),
             "held_delayed_runs_expected": sum(len(c.payload.get("_oracle", {}).get("runs", [])) for c in held),
             "operations_issued": n_ops, "events_delivered_to_decorators": n_deliv,
